@@ -227,7 +227,7 @@ def run(pid, tier, seed, replay=None):
     if pid == "C01":
         # several hundred instances per file (multi-byte referents, long columns); only the round-trip clauses
         # are cheap enough at this size (decoding such a file inside TLC takes tens of minutes)
-        plans.append(("scale", seed + 5, 3 if quick else 150, 6))
+        plans.append(("scale", seed + 5, 12 if quick else 300, 6))
     total = 0
     nontrivial = 0
     samples = []
